@@ -19,6 +19,8 @@ type Clause struct {
 	Text  string
 	Expr  ast.Expr
 	Props []string // optional per-clause property tags
+	Cases *Clause  // optional clause-level case split
+	CaseLo, CaseHi int
 }
 
 type LoopContract struct {
@@ -44,6 +46,9 @@ type FnContract struct {
 	Trusted  bool // contract is assumed at call sites but the body is not verified (listed as assumption)
 	NoBody   bool
 	Lets     []Clause // let name = expr (ghost bindings evaluated at entry)
+	Ghosts   [][2]string // ghost name type: universally quantified ghost integers (fresh symbolic constants)
+	Cases    *Clause  // cases <expr> lo..hi : every post obligation is split into one query per value of expr
+	CaseLo, CaseHi int
 }
 
 func (fc *FnContract) HasSpec() bool {
@@ -173,7 +178,7 @@ func parseClause(text string) (Clause, error) {
 }
 
 var keywords = map[string]bool{"func": true, "props": true, "spec": true, "requires": true, "ensures": true, "assigns": true, "loop": true,
-	"invariant": true, "decreases": true, "unroll": true, "opt": true, "trusted": true, "let": true, "modifies": true}
+	"invariant": true, "decreases": true, "unroll": true, "opt": true, "trusted": true, "let": true, "modifies": true, "ghost": true, "cases": true}
 
 // LoadContracts parses every verif_contracts*.go file of the loaded module packages.
 func LoadContracts(p *Program) *ContractDB {
@@ -259,6 +264,33 @@ func (db *ContractDB) parseLines(p *Program, pkgPath, file string, lines []strin
 			if cur != nil {
 				cur.Trusted = true
 			}
+		case "ghost":
+			if cur != nil {
+				f := strings.Fields(it.rest)
+				if len(f) == 2 {
+					cur.Ghosts = append(cur.Ghosts, [2]string{f[0], f[1]})
+				} else {
+					db.errf("%s: %s: bad ghost clause", file, cur.Name)
+				}
+			}
+		case "cases":
+			if cur != nil {
+				// cases <expr> lo..hi
+				i := strings.LastIndex(it.rest, " ")
+				if i < 0 {
+					db.errf("%s: %s: bad cases clause", file, cur.Name)
+					continue
+				}
+				rng := strings.SplitN(strings.TrimSpace(it.rest[i+1:]), "..", 2)
+				cl, err := parseClause(it.rest[:i])
+				if err != nil || len(rng) != 2 {
+					db.errf("%s: %s: bad cases clause: %v", file, cur.Name, err)
+					continue
+				}
+				cur.Cases = &cl
+				cur.CaseLo, _ = strconv.Atoi(rng[0])
+				cur.CaseHi, _ = strconv.Atoi(rng[1])
+			}
 		case "opt":
 			if cur != nil {
 				kv := strings.SplitN(it.rest, "=", 2)
@@ -275,10 +307,30 @@ func (db *ContractDB) parseLines(p *Program, pkgPath, file string, lines []strin
 			text := it.rest
 			var props []string
 			// optional property tags: "[C01 C03] expr"
+			var clCases *Clause
+			var clLo, clHi int
 			if strings.HasPrefix(text, "[") {
 				end := strings.Index(text, "]")
-				props = strings.Fields(text[1:end])
+				inner := strings.TrimSpace(text[1:end])
 				text = strings.TrimSpace(text[end+1:])
+				if strings.HasPrefix(inner, "cases ") {
+					// [cases <expr> lo..hi]
+					inner = strings.TrimSpace(inner[6:])
+					i := strings.LastIndex(inner, " ")
+					if i > 0 {
+						rng := strings.SplitN(strings.TrimSpace(inner[i+1:]), "..", 2)
+						cc, err := parseClause(inner[:i])
+						if err == nil && len(rng) == 2 {
+							clCases = &cc
+							clLo, _ = strconv.Atoi(rng[0])
+							clHi, _ = strconv.Atoi(rng[1])
+						} else {
+							db.errf("%s: %s: bad clause-level cases: %v", file, cur.Name, err)
+						}
+					}
+				} else {
+					props = strings.Fields(inner)
+				}
 			}
 			var cl Clause
 			var err error
@@ -298,6 +350,7 @@ func (db *ContractDB) parseLines(p *Program, pkgPath, file string, lines []strin
 				continue
 			}
 			cl.Props = props
+			cl.Cases, cl.CaseLo, cl.CaseHi = clCases, clLo, clHi
 			switch it.kw {
 			case "let":
 				cur.Lets = append(cur.Lets, cl)
